@@ -343,6 +343,7 @@ func (db *DB) Close() error {
 
 	db.mu.Lock()
 	defer db.mu.Unlock()
+	db.closed = true
 
 	// 释放文件锁
 	defer func() {
